@@ -115,7 +115,16 @@ def c_forms(ctx, args):
     return None
 
 
-CHECKS = {'forms': c_forms, 'pmul_corr': c_pmul_corr, 'pmul_dense': c_pmul_dense, 'chain_corr': c_chain_corr, 'chain_dense': c_chain_dense,
+def c_op_history(ctx, args):
+    """ONE operator object used (products, sums, casts, printing), updated in place, used again: see vlib.history.operator_history"""
+    from vlib import history
+    kind, n, seed, steps, be = args
+    if be == 'torch' and kind == 'mono':
+        return None
+    return history.operator_history(ctx, kind, n, seed, steps, be)
+
+
+CHECKS = {'op_history': c_op_history, 'forms': c_forms, 'pmul_corr': c_pmul_corr, 'pmul_dense': c_pmul_dense, 'chain_corr': c_chain_corr, 'chain_dense': c_chain_dense,
           'batch_corr': c_batch_corr, 'batch_dense': c_batch_dense, 'square': c_square}
 
 
@@ -197,3 +206,7 @@ def run(ctx):
     for _ in range(int(300 * B)):
         n = rng.randint(2, 5)
         do(ctx, 'forms', [gen.rpauli(rng, n), gen.rpauli(rng, n), rng.choice(forms), rng.choice(forms)], nontrivial=('f', ctx.res.evaluations))
+    # one long-lived operator object: uses interleaved with in-place updates
+    for it in range(int(60 * B)):
+        kinds, bes = ['pauli', 'mono', 'poly'], ['np', 'np', 'torch']
+        do(ctx, 'op_history', [kinds[it % len(kinds)], rng.randint(1, 3), rng.randrange(10 ** 6), rng.randint(4, 12), bes[(it // len(kinds)) % len(bes)]], nontrivial=('oph', it))
